@@ -115,6 +115,9 @@ func load(T types.Type, addr *value) value {
 	switch T := T.Underlying().(type) {
 	case *types.Struct:
 		v, ok := (*addr).(structure)
+		if mv, moved := (*addr).(movedNative); moved {
+			return nativeV{mv.ptr.rv.Elem()}
+		}
 		if !ok {
 			return *addr // opaque payload stored in a struct slot (stubbed library types)
 		}
